@@ -3,6 +3,8 @@ Lemmas about `Dtn7.Model.IdKeeper` (C14). Core-only.
 -/
 import Dtn7.Model.IdKeeper
 
+set_option linter.unusedSimpArgs false
+
 namespace Dtn7.IdKeeper.Lemmas
 open Dtn7.IdKeeper
 
@@ -353,6 +355,59 @@ theorem invS_run (subs : Nat → Sub) (σ : List Act) : ∀ (n : Node), InvS sub
   induction σ with
   | nil => intro n h; exact h
   | cons a σ ih => intro n h; exact ih _ (invS_step subs n a h)
+
+/-- The mutex part of the invariant on its own (needs no hypothesis on the schedule or the clock). -/
+structure InvL (n : Node) : Prop where
+  l1 : ∀ i, 1 ≤ (n.th i).pc → (n.th i).pc ≤ 4 → n.holder = some i
+  l2 : ∀ i, n.holder = some i → 1 ≤ (n.th i).pc ∧ (n.th i).pc ≤ 4
+
+theorem invL_step (subs : Nat → Sub) (n : Node) (a : Act) (h : InvL n) :
+    InvL (step Cfg.code subs n a) := by
+  cases a with
+  | retry p => exact ⟨h.l1, h.l2⟩
+  | step i =>
+    obtain ⟨hl1, hl2⟩ := h
+    rcases step_code_cases subs n i with ⟨hpc, he⟩ | ⟨hpc, he⟩ | ⟨hpc, he⟩ | ⟨hpc, he⟩ | ⟨hpc, he⟩ |
+        ⟨hpc, he⟩ | ⟨hpc, he⟩ | ⟨hpc, he⟩ | ⟨hpc, he⟩ <;> rw [he]
+    · simp only [exec]
+      by_cases hh : n.holder = none
+      · simp only [hh, if_true]
+        constructor <;> simp only [Node.bump, setTh_th, setTh_holder] <;> grind
+      · simp only [hh, if_false]; exact ⟨hl1, hl2⟩
+    · simp only [exec]
+      constructor <;> simp only [setTh_th, setTh_holder] <;> grind
+    · simp only [exec]
+      constructor <;> simp only [Node.bump, setTh_th, setTh_holder] <;> grind
+    · simp only [exec]
+      constructor <;> simp only [setTh_th, setTh_holder] <;> grind
+    · simp only [exec]
+      constructor <;> simp only [Node.bump, setTh_th, setTh_holder] <;> grind
+    · simp only [exec]
+      split
+      · exact ⟨hl1, hl2⟩
+      · constructor <;> simp only [Node.bump, setTh_th, setTh_holder] <;> grind
+    · simp only [exec]
+      split
+      · constructor <;> simp only [Node.bump, setTh_th, setTh_holder] <;> grind
+      · constructor <;> simp only [Node.bump, setTh_th, setTh_holder] <;> grind
+    · simp only [exec]
+      constructor <;> simp only [Node.bump, setTh_th, setTh_holder] <;> grind
+    · exact ⟨hl1, hl2⟩
+
+theorem invL_run (subs : Nat → Sub) (σ : List Act) : ∀ (n : Node), InvL n →
+    InvL (run Cfg.code subs n σ) := by
+  induction σ with
+  | nil => intro n h; exact h
+  | cons a σ ih => intro n h; exact ih _ (invL_step subs n a h)
+
+/-- Mutual exclusion: at most one submission is between `lock` and `unlock`. -/
+theorem exclusive_of_inv (n : Node) (h : InvL n)
+    (i j : Nat) (hi : 1 ≤ (n.th i).pc ∧ (n.th i).pc ≤ 4) (hj : 1 ≤ (n.th j).pc ∧ (n.th j).pc ≤ 4) :
+    i = j := by
+  have h1 := h.l1 i hi.1 hi.2
+  have h2 := h.l1 j hj.1 hj.2
+  rw [h1] at h2
+  exact Option.some.inj h2
 
 /-- Two submissions that have their final number carry different ids. -/
 theorem ids_ne_of_inv (subs : Nat → Sub) (A : Nat → Prop) (n : Node) (h : Inv subs A n)
